@@ -456,9 +456,15 @@ where
                 .map(|c| N::from_real(c.re))
                 .collect::<Vec<_>>()
         } else {
+            // sqrt(-1 - 0i) lies on the other side of the branch cut and evaluates to -i:
+            // make sure the imaginary unit is +i
+            let mut imaginary_unit = (-N::one()).sqrt();
+            if imaginary_unit.imaginary() < N::RealField::zero() {
+                imaginary_unit = -imaginary_unit;
+            }
             working
                 .iter()
-                .map(|c| N::from_real(c.re) + (-N::one()).sqrt() * N::from_real(c.im))
+                .map(|c| N::from_real(c.re) + imaginary_unit * N::from_real(c.im))
                 .collect::<Vec<_>>()
         };
 
